@@ -88,6 +88,10 @@ def step_extract(ctx):
         return False
     ctx.untranslated = [l for l in out.splitlines() if l.startswith("untranslated:")]
     ctx.note(f"extract: ok ({len(ctx.untranslated)} bodies outside the fragment, {dt:.1f}s)")
+    if not step_support(ctx):
+        ctx.broken.append(dict(kind="extractor", what="a regenerated Gen/*.v file does not compile", detail=""))
+        ctx.note("extract: regenerated Gen does not compile")
+        return False
     return True
 
 
@@ -143,6 +147,18 @@ def grep_forbidden():
                     continue
             hits.append(f"{f}: {w}")
     return hits
+
+
+def step_support(ctx):
+    """build everything the case files import: PyMini, Model, Spec (independent of Gen) and Gen itself"""
+    targets = [f[:-2] + ".vo" for f in coq_files() if f.split("/")[0] in ("PyMini", "Model", "Spec")]
+    ensure_makefile()
+    rc, out, err, dt = run(["make", "-j", str(NCPU)] + targets, 900, cwd=COQ)
+    if rc != 0:
+        raise RuntimeError("building Model/Spec failed: " + clean_noise(out + err)[-1500:])
+    gen = [f[:-2] + ".vo" for f in coq_files() if f.startswith("Gen/")]
+    rc, out, err, dt = run(["make", "-j", str(NCPU), "-k"] + gen, 900, cwd=COQ)
+    return rc == 0
 
 
 def step_prove(ctx, props_file=None):
